@@ -194,6 +194,13 @@ def make_cases(res, rng, tier):
             with warnings.catch_warnings():
                 warnings.simplefilter('ignore')
                 probe_termlist(res, tl, specs, Xtr, X)
+        except Exception as e:
+            res.violations.append(dict(what='evaluating the property statement on the implementation raised', finding=None,
+                                       input=dict(specs=specs, X_train=Xtr.tolist(), X=X.tolist()),
+                                       observed='%s: %s' % (type(e).__name__, e), expected='columns addressed by valid indices'))
+        try:
+            with warnings.catch_warnings():
+                warnings.simplefilter('ignore')
                 full = dense(tl.build_columns(X))
                 idx = [tl.get_coef_indices(i) for i in range(len(tl._terms))]
         except Exception as e:
